@@ -92,7 +92,9 @@ def strip_coq_comments(src):
 
 def coq_files():
     res = []
-    for root, _, files in os.walk(COQ):
+    for root, dirs, files in os.walk(COQ):
+        if "wip" in dirs:
+            dirs.remove("wip")   # scratch area: not part of the development, never built by checks
         for f in files:
             if f.endswith(".v"):
                 res.append(os.path.join(root, f))
@@ -126,6 +128,14 @@ def hygiene():
 
 
 def ensure_makefile():
+    import fcntl
+    os.makedirs(BUILD, exist_ok=True)
+    with open(os.path.join(BUILD, "coqproject.lock"), "w") as lk:
+        fcntl.flock(lk, fcntl.LOCK_EX)
+        _ensure_makefile()
+
+
+def _ensure_makefile():
     mk = os.path.join(COQ, "Makefile")
     proj = os.path.join(COQ, "_CoqProject")
     files = [os.path.relpath(f, COQ) for f in coq_files()]
